@@ -1,3 +1,4 @@
 Require Import ExtrOcamlBasic.
 Require Import SGV.Plugins.FileSystem.
-Extraction "c46_model.ml" run_c46 run_c46_pinned run_c46_oracle.
+Require Import SGV.Plugins.FileSystemConc.
+Extraction "c46_model.ml" run_c46 run_c46_pinned run_c46_oracle run_c46_multi.
